@@ -413,6 +413,43 @@ fn check_in(case: &Case, repo: &std::sync::Arc<jj_lib::repo::ReadonlyRepo>) -> C
     );
     let ct = c.tree();
     let rt = rebased.tree();
+    if std::env::var_os("JJVERIF_C08_DEBUG").is_some() {
+        eprintln!("C08 debug: old_parents={:?}\n new_parents={:?}\n OB={:?}\n NB={:?}\n C ={:?}\n R ={:?}",
+            old_parents.iter().map(|p| p.description().trim().to_string()).collect::<Vec<_>>(),
+            new_parents.iter().map(|p| p.description().trim().to_string()).collect::<Vec<_>>(),
+            ob.tree_ids(), nb.tree_ids(), ct.tree_ids(), rt.tree_ids());
+        eprintln!("OB:\n{}NB:\n{}C:\n{}R:\n{}", testutils::dump_tree(&ob), testutils::dump_tree(&nb), testutils::dump_tree(&ct), testutils::dump_tree(&rt));
+    }
+
+    // Known finding: `rebase` keeps the old tree whenever the lists of the old and new parents'
+    // trees are equal ("Optimization: Skip merging"), although the *merge* of the parents can
+    // differ when only the merge base changed (same trees, different ancestry). Recognised
+    // when that shortcut applies and the result differs from the general formula
+    // merge(new base, old base, old tree).
+    let old_parent_tree_ids: Vec<_> = old_parents.iter().map(|p| p.tree_ids().clone()).collect();
+    let new_parent_tree_ids: Vec<_> = new_parents.iter().map(|p| p.tree_ids().clone()).collect();
+    if old_parent_tree_ids == new_parent_tree_ids && ob.tree_ids() != nb.tree_ids() {
+        let general = MergedTree::merge(Merge::from_vec(vec![
+            (nb.clone(), "new base".to_string()),
+            (ob.clone(), "old base".to_string()),
+            (ct.clone(), "commit".to_string()),
+        ]))
+        .block_on()
+        .map_err(|e| Violation::new(format!("general rebase formula failed: {e}")))?;
+        if general.tree_ids() != rt.tree_ids() {
+            return Err(Violation::known(
+                "C08-equal-parent-trees-shortcut-ignores-changed-merge-base",
+                format!(
+                    "rebase onto parents with identical trees but a different merge base kept the old tree \
+                     {:?}; merge(new base, old base, old tree) = {:?} (old base {:?}, new base {:?})",
+                    rt.tree_ids(),
+                    general.tree_ids(),
+                    ob.tree_ids(),
+                    nb.tree_ids()
+                ),
+            ));
+        }
+    }
 
     let paths = universe();
     let mut v_ob = vec![];
